@@ -310,6 +310,7 @@ func isHookOrGenerated(name string) bool {
 }
 
 func btFacts(p *packages.Package, f *Facts) {
+	f.Facts["bt.table_mutex"] = mutexDiscipline(p, "mu")
 	f.Facts["bt.tables_access_outside_server_mu"] = unguarded(p, "server",
 		map[string]string{"server.t": "tables"},
 		map[string]bool{"NewServerWithOptions": true, "NewVerifService": true})
@@ -318,7 +319,93 @@ func btFacts(p *packages.Package, f *Facts) {
 	f.Facts["bt.partial_ops"] = partialOps(p, isHookOrGenerated)
 }
 
+// lockKeys lists, per function, the key expression of every `<x>.locks.Run(ctx, KEY, …)` call: the
+// per-object lock is only a lock if every handler computes the key of an object in the same way.
+func lockKeys(p *packages.Package) []string {
+	var out []string
+	for _, file := range p.Syntax {
+		name := p.Fset.Position(file.Pos()).Filename
+		if strings.HasSuffix(name, "_test.go") || isHookOrGenerated(name) {
+			continue
+		}
+		for _, d := range file.Decls {
+			fd, ok := d.(*ast.FuncDecl)
+			if !ok || fd.Body == nil {
+				continue
+			}
+			ast.Inspect(fd.Body, func(n ast.Node) bool {
+				call, ok := n.(*ast.CallExpr)
+				if !ok || len(call.Args) < 2 {
+					return true
+				}
+				if sel, ok := call.Fun.(*ast.SelectorExpr); ok && sel.Sel.Name == "Run" && strings.HasSuffix(exprString(sel.X), ".locks") {
+					out = append(out, fd.Name.Name+": "+exprString(call.Args[1]))
+				}
+				return true
+			})
+		}
+	}
+	sort.Strings(out)
+	return out
+}
+
+// mutexDiscipline lists, per function, the calls on `<x>.<field>` (Lock, Unlock, RLock, RUnlock) in
+// source order, marking deferred ones: a request that takes a lock it does not release on some path,
+// or releases one it does not hold, changes this text.
+func mutexDiscipline(p *packages.Package, field string) []string {
+	var out []string
+	for _, file := range p.Syntax {
+		name := p.Fset.Position(file.Pos()).Filename
+		if strings.HasSuffix(name, "_test.go") || isHookOrGenerated(name) {
+			continue
+		}
+		for _, d := range file.Decls {
+			fd, ok := d.(*ast.FuncDecl)
+			if !ok || fd.Body == nil {
+				continue
+			}
+			var seq []string
+			deferred := map[*ast.CallExpr]bool{}
+			ast.Inspect(fd.Body, func(n ast.Node) bool {
+				if ds, ok := n.(*ast.DeferStmt); ok {
+					deferred[ds.Call] = true
+				}
+				call, ok := n.(*ast.CallExpr)
+				if !ok {
+					return true
+				}
+				sel, ok := call.Fun.(*ast.SelectorExpr)
+				if !ok {
+					return true
+				}
+				switch sel.Sel.Name {
+				case "Lock", "Unlock", "RLock", "RUnlock":
+					if inner, ok := sel.X.(*ast.SelectorExpr); ok && inner.Sel.Name == field {
+						tag := sel.Sel.Name
+						if deferred[call] {
+							tag = "defer " + tag
+						}
+						seq = append(seq, tag)
+					}
+				}
+				return true
+			})
+			if len(seq) > 0 {
+				fn := fd.Name.Name
+				if fd.Recv != nil && len(fd.Recv.List) > 0 {
+					fn = strings.TrimPrefix(exprString(fd.Recv.List[0].Type), "*") + "." + fn
+				}
+				out = append(out, fn+": "+strings.Join(seq, ", "))
+			}
+		}
+	}
+	sort.Strings(out)
+	return out
+}
+
 func gcsFacts(p *packages.Package, f *Facts) {
+	f.Facts["gcs.lock_keys"] = lockKeys(p)
+	f.Facts["gcs.filestore_mutex"] = mutexDiscipline(p, "mu")
 	if fs, ok := structFields(p, "filestore"); ok {
 		f.Facts["gcs.filestore_fields"] = fs
 	} else {
